@@ -59,14 +59,57 @@ CODEC = dict(name="codec", cmd=gotest("codec", "TestCodec"), timeout=dict(quick=
 P = "Ldlm.Props."
 PROPS = {
     "C01": dict(
-        modules=[P + "C01"],
+        modules=[P + "C01", P + "C02"],
         theorems=[P + "C01." + t for t in ("capacity", "mutual_exclusion", "capacity_sharded", "waiter_implies_full")]
-                 + ["Ldlm.Core.run_lockInv", "Ldlm.Core.shardedOps_lawful", "Ldlm.Core.flatOps_lawful"],
-        streams=[SEQ],
-        level_text="Sequential half: for EVERY operation sequence (grants, unlocks, renews, lease expiries, wait time-outs, session ends, GC passes, restarts, admin unlocks) and every lawful lock-table representation (sharded with any hash/shard count) the model never holds more keys than the size: proved by induction over operations, no bound. Tied to the code by seqdiff (lock-table channel) and a direct monitor on the implementation's table. Interleavings (schedules) are NOT yet covered by a theorem in this revision; see level_note.",
-        level_note="PARTIAL in this revision: the schedule quantifier (concurrent requests / GC / timers) is not yet covered: the interleaved table model M1 and its concdiff tie are work in progress (DESIGN §4 M1). Known on the tree: GC racing an acquisition can double-grant (D8) — to be flagged by the concurrent check. Trusted: Lean kernel, hand-written M2 + differential tie, synctest clock.",
+                 + ["Ldlm.Core.run_lockInv", "Ldlm.Core.shardedOps_lawful", "Ldlm.Core.flatOps_lawful", "Ldlm.Table.run_inv", "Ldlm.Table.gc_safe", "Ldlm.Props.C02.conservation"],
+        streams=[SEQ, CONC],
+        level_text="Sequential half: for EVERY operation sequence (grants, unlocks, renews, lease expiries, wait time-outs, session ends, GC passes, restarts, admin unlocks) and every lawful lock-table representation (sharded with any hash/shard count) the model never holds more keys than the size: proved by induction over operations, no bound. Tied to the code by seqdiff (lock-table channel) and a direct monitor on the implementation's table. Interleaved half (M1, one action per critical section of lock.go/manager.go, any number of threads, GC steps anywhere): in every state of every schedule units taken = keys + grants in progress <= size, so acknowledged live holds never exceed the size. Tied by controlled-interleaving exploration of the instrumented real code with capacity monitors (acknowledged holders, table keys, free-unit probes).",
+        level_note="The server layer above the table (session end, lease callback as concurrent threads) is covered for capacity by the conc stream only; its interleaved model M3 is work in progress. D8 (GC race: two holders of a size-1 lock) was found by this check and repaired (fix: 8781713). Trusted: Lean kernel, hand-written M1/M2, x/sync semaphore modelled, synctest, instrumented-build exploration.",
         technique="Lean 4 proof (inductive invariant over all operation sequences, generic in the table representation) + sequential differential correspondence",
         trusted=M2_TRUST,
+    ),
+    "C02": dict(
+        modules=[P + "C02"],
+        theorems=[P + "C02." + t for t in ("refines_atomic_lock", "fresh_object_inv", "conservation", "try_refused_only_when_full", "unlock_at_most_once")]
+                 + ["Ldlm.Table.sim_obj", "Ldlm.Table.refines_obj", "Ldlm.Table.stepObj_inv"],
+        streams=[CONC],
+        level_text="M1 has one action per critical section of lock.go/manager.go; every action emits the atomic-specification operations that take effect at it. Proved for EVERY schedule of any number of threads on a lock object: the emitted operations, in schedule order, are an execution of the atomic counting lock (forward simulation lifted to whole schedules) - each inside its call's interval, i.e. linearizability - under the side condition that a failing Unlock does not present a key still in the middle of being granted (a key no client has been told). Conservation (units = live keys + grants in progress <= size), 'refused only when full' and 'unlocked at most once' are proved with no hypothesis. Tied to the code by exploring all schedules up to a preemption bound (+ random) of 2-4-call programs on the instrumented real code, with a brute-force linearizability checker and capacity probes on every outcome.",
+        level_note="The refinement hypothesis AllSide excludes guessing a key before it was returned (unobservable to clients). The tie is outcome monitoring on explored schedules, not yet per-action trace validation against M1 (planned). D14/W1 (double-unlock window) was found by this check and repaired (fix: 066861c); the model has Unlock as one critical section accordingly. x/sync/semaphore is modelled (unit weights), not verified.",
+        technique="Lean 4 proof (forward simulation to an atomic spec, lifted to all schedules by induction) + controlled-interleaving exploration with a linearizability monitor",
+        trusted=CONC_TRUST,
+    ),
+    "C03": dict(
+        modules=[P + "C03"],
+        theorems=[P + "C03." + t for t in ("no_lost_wakeup", "release_serves_head", "arrivals_at_tail", "cancelled_never_served", "cancel_keeps_invariant",
+                                          "waiter_implies_full_seq", "wait_deadline", "wait_timeout_zero_is_none")]
+                 + ["Ldlm.Table.run_inv"],
+        streams=[CONC, SEQ],
+        level_text="For every schedule of any number of threads (M1): a non-empty queue means every unit is taken (no lost wake-up), a release hands the unit to the head of the queue and arrivals join at the tail (FIFO), a waiter that gave up is out of the queue and cannot be served later, and giving up preserves the invariant (does not delay the others). Timed part over M2: the wait deadline is exactly now + w*10^9 iff w > 0, 0/absent = none; the sequential no-lost-wake-up holds in every reachable state. Tied to the code by conc templates (release x waiter arrival x wait time-out x cancel, 1-2 waiters, coinciding instants) and seqdiff with exact virtual return times and a FIFO / early- / late-time-out monitor.",
+        level_note="PARTIAL: 'promptly' is exact only in virtual time; real-time promptness and fair scheduling are the Go runtime's (trusted). Shutdown: the manager alone dead-locks with an un-cancellable blocked waiter (observation in DESIGN §2); through cmd/server the network layer cancels waiters first (C11). A theorem that a pending call completes at exactly its deadline under `advance` (wait_timeout_exact) is not yet proved; it is checked by the seq monitor.",
+        technique="Lean 4 proof (inductive invariant over all schedules; queue discipline lemmas; M2 decision lemmas) + controlled interleavings + virtual-time sequential differential",
+        trusted=M2_TRUST + CONC_TRUST,
+    ),
+    "C04": dict(
+        modules=[P + "C04", P + "C12"],
+        theorems=[P + "C04." + t for t in ("grant_arms_lease", "no_timeout_no_lease", "lease_not_early", "lease_not_early_held", "lease_prompt", "renew_restarts",
+                                          "renew_requires_lease", "dead_key_inert", "expired_is_not_held")]
+                 + ["Ldlm.Core.advanceTo_keeps_later", "Ldlm.Core.advanceTo_prompt", "Ldlm.Props.C12.lease_units_pinned"],
+        streams=[SEQ],
+        level_text="Over M2 in exact virtual time, for every state satisfying the reachability invariant: a grant with lock timeout t stores a lease with deadline exactly now + t*10^9 (unit pinned to time.Second by a regenerated fact); advancing to any instant before a deadline leaves that lease and its hold in place (no early release); after an advance no lease with a deadline at or before the new time is left (prompt expiry; fuel exhaustion is reported, never silent) and a fired lease's hold is gone; a successful Renew sets the deadline to exactly now + t*10^9 and touches nothing else; Renew without a lease fails; a dead key's Unlock/Renew fail and change nothing. Tied to the code by seqdiff with time steps to deadline-1ns / deadline / deadline+1ns, renew with different T, renew after expiry, and an arithmetic lease monitor on the implementation trace.",
+        level_note="'A hold taken without a lock timeout never expires' is proved as 'no lease is stored' (no_timeout_no_lease) + prompt/early theorems about stored leases; Renew of such a hold fails (renew_requires_lease) - the code's behaviour, stated. lease_not_early_held uses invariant preservation by restart as hypothesis hr. Trusted: Lean kernel, time.AfterFunc/Timer semantics (modelled), synctest clock, hand-written M2.",
+        technique="Lean 4 proof (induction over the event loop of `advance` under the reachability invariant) + virtual-time sequential differential + arithmetic lease monitor",
+        trusted=M2_TRUST,
+    ),
+    "C13": dict(
+        modules=[P + "C13"],
+        theorems=[P + "C13." + t for t in ("gc_never_removes_busy", "gc_frame", "gc_keeps_invariant", "gc_pass_keeps_held", "gc_only_effect_is_recreation", "gc_pass_frame", "gc_changes_failing_unlock_code")]
+                 + ["Ldlm.Table.gc_safe", "Ldlm.Table.run_inv"],
+        status={P + "C13.gc_changes_failing_unlock_code": "refutation witness of strict invisibility (K11)"},
+        streams=[CONC, SEQ],
+        level_text="M1 (every schedule, GC steps anywhere, any idle-clock reading): a GC step that deletes a lock deletes one nobody holds, is acquiring, waits on or has fetched, with a free semaphore; it leaves every other lock untouched; the table invariant holds in every state of every schedule with GC interleaved - so the code's deleted-lock panic and checks are unreachable. M2: a GC pass keeps every record that has a key, changes nothing but the lock table, and a removed record was unheld and idle longer than min-idle (the only effect: re-creation, possibly with another size). Strict invisibility is false of the code in one respect (K11: a failing Unlock with a stale key names a different reason after collection) - kernel-checked witness. Tied by conc templates (GC pass x Lock/TryLock/Unlock, min-idle 0) and a metamorphic seq run (same history with GC off, implementation vs implementation).",
+        level_note="PARTIAL by K11. A full simulation theorem 'responses with GC = responses without GC modulo K11 for size-stable histories' is not yet proved (checked by the metamorphic stream). D8 (GC racing an acquisition: double grant / panic) was found by this check and repaired (fix: 8781713). Trusted: Lean kernel, hand-written M1/M2, instrumented-build exploration.",
+        technique="Lean 4 proof (GC enabling condition + invariant over all schedules) + controlled interleavings + metamorphic GC-on/GC-off replay",
+        trusted=M2_TRUST + CONC_TRUST,
     ),
     "C07": dict(
         modules=[P + "C07"],
